@@ -11,7 +11,7 @@ from common import proof_stage
 import algrun
 import exact
 
-MODULES = ["CobyqaVerif.Props.C12"]
+MODULES = ["CobyqaVerif.Props.C12", "CobyqaVerif.Props.C12Poised"]
 LEVEL = "proof"
 EPS = algrun.EPS
 TOLF = 1e3
